@@ -1,6 +1,7 @@
 """C01 — Parsing is lossless and order-preserving for the text hierarchy."""
 from __future__ import annotations
 
+import copy
 import datetime
 import glob
 import itertools
@@ -12,7 +13,8 @@ from typing import Any, Dict, Iterable, List, Optional
 
 from harness.core import Case, Check, Finding, VERIF, call, canon, short
 from harness.props._doc import (DocCheck, Gen, page_class, random_mutation, r_doc, region_state, fix_regions,
-                                mark_nonconformant, PAGE_META_TAGS, dump_scan, dump_extra, real_todict)
+                                mark_nonconformant, PAGE_META_TAGS, dump_scan, dump_extra, real_todict, all_paths, node_at,
+                                hull_table, norm_answer, scan_diff)
 
 CORPUS = os.path.join(VERIF, 'harness', 'corpus', 'C01')
 
@@ -83,10 +85,64 @@ def read_doc(xml: str):
             'has_ro': bool(_kids(page, 'ReadingOrder'))}
 
 
-def has_content(r) -> bool:
-    """coordinates, or content: lines, text, or a sub-region that itself has coordinates or content"""
-    text = r['te'] is not None and r['te']['text'].strip() != ''
-    return bool(r['coords']) or bool(r['lines']) or text or any(has_content(s) for s in r['regions'])
+def has_content(r, alt=False) -> bool:
+    """coordinates, or content: lines, text, or a sub-region that itself has coordinates or content.
+    `alt`: under the other reading of an empty Unicode next to a non-empty PlainText (see _text_equiv) — the PlainText
+    rendering is the text, and so is content"""
+    te = r['te']
+    text = te is not None and (te['text'].strip() != '' or (alt and te.get('alt_text') is not None))
+    return bool(r['coords']) or bool(r['lines']) or text or any(has_content(s, alt) for s in r['regions'])
+
+
+# ---------------------------------------------------------------------------------------
+# the two readings of <TextEquiv><PlainText>x</PlainText><Unicode/></TextEquiv>  (element trees of _doc.py)
+# ---------------------------------------------------------------------------------------
+# Such a document IS inside the quantifier ("every optional attribute or child independently present or absent": PlainText
+# is an optional child of TextEquiv), so it must parse, and every id, point list, confidence, order … is fixed.  What the
+# statement does not fix is which of the two renderings is "the same … text … as in the file" when the Unicode one is
+# empty — and, as a consequence, whether a region without coordinates whose only content is such a TextEquiv has
+# "content" (kept, with the PlainText as its text) or not (skipped).  The model mirrors "Unicode wins".  The
+# correspondence therefore compares the real parse with the model's answer for the document as it is AND, only when
+# these differ, with the model's answers for the same document under the other reading of any subset of those TextEquivs
+# (the Unicode element given the PlainText content): equal to one of them = no difference.  Everything else in the
+# document stays compared exactly, and a document without such a TextEquiv has exactly one reading.
+
+MAX_FREE_TE = 4
+
+
+def free_te_paths(tree) -> List[List[int]]:
+    """paths of the Unicode elements that are empty (white space only, no attributes) next to a non-empty PlainText"""
+    out = []
+    for p in all_paths(tree):
+        n = node_at(tree, p)
+        if n['t'] != 'TextEquiv':
+            continue
+        us = [i for i, k in enumerate(n['c']) if k['t'] == 'Unicode']
+        ps = [k for k in n['c'] if k['t'] == 'PlainText']
+        if len(us) == 1 and len(ps) == 1 and not n['c'][us[0]]['a'] and not n['c'][us[0]]['c'] and not ps[0]['a'] \
+                and not ps[0]['c'] and n['c'][us[0]]['x'].strip() == '' and ps[0]['x'].strip() != '':
+            out.append(p + [us[0]])
+    return out
+
+
+def other_readings(tree) -> List[Any]:
+    """the trees of the other readings: for every non-empty subset of the free TextEquivs (all subsets up to MAX_FREE_TE
+    of them; beyond that the whole set and the single ones) the Unicode element carries the PlainText content"""
+    free = free_te_paths(tree)
+    if not free:
+        return []
+    if len(free) <= MAX_FREE_TE:
+        subsets = [[p for i, p in enumerate(free) if m >> i & 1] for m in range(1, 2 ** len(free))]
+    else:
+        subsets = [free] + [[p] for p in free]
+    out = []
+    for sub in subsets:
+        t = copy.deepcopy(tree)
+        for p in sub:
+            te = node_at(t, p[:-1])
+            te['c'][p[-1]]['x'] = next(k['x'] for k in te['c'] if k['t'] == 'PlainText')
+        out.append(t)
+    return out
 
 
 def located(r) -> bool:
@@ -202,7 +258,11 @@ class C01(DocCheck):
         'same value but may hold more, a falsy scan.reading_order is one value (None = {}), mutated documents that are no longer '
         'conformant (mandatory attribute / child missing, untyped number, repeated id) are outside the quantifier: recorded only; '
         'keys of scan.metadata named like a PAGE Metadata child (Creator, Created, LastChange, Comments, UserDefined, MetadataItem) '
-        'must be exactly the model\'s; HISTORIES (wave 4, case kind seq): several documents parsed one after the other in ONE pristine '
+        'must be exactly the model\'s; a TextEquiv whose Unicode element is empty next to a non-empty PlainText has two readings of '
+        '"the text" (the statement fixes neither; such documents stay inside the quantifier): the model mirrors "Unicode wins", and '
+        'when the real parse differs from it, it is compared with the model\'s parse of the same document under the other reading '
+        'of every subset of those elements (incl. whether a region without coordinates whose only content is such a text is kept) — '
+        'equal to one of them is no difference, everything else in the document stays exact; HISTORIES (wave 4, case kind seq): several documents parsed one after the other in ONE pristine '
         'process (a forked child of a helper that has imported the library and called nothing), in varying order and with repeats, '
         'through parse_pagexml_file(data) / parse_pagexml_file(path) / parse_pagexml_json(dict) / the same dict twice; the model is a '
         'pure function of the document, so its one answer is compared with every parse of it, every parse is judged by the oracle, '
@@ -295,6 +355,11 @@ class C01(DocCheck):
         for _ in range(4 if tier == 'quick' else 40):
             doc(self.wide_doc(gen, rng), 'wide', 'expect-mirror')
         histories = self.seq_cases(rng, gen, tier)
+        # ---- WAVE 5 (generated after everything above): regions without coordinates whose ONLY content is an empty Unicode
+        #      next to a non-empty PlainText — kept or skipped, depending on the reading (see `other_readings`)
+        for shape in ('alone', 'nested', 'beside', 'two', 'with-unicode-sibling'):
+            for conf in ((None,) if tier == 'quick' else (None, '0.5')):
+                doc(self.free_region_doc(gen, shape, conf), 'free-region', 'expect-mirror')
         return out[:n_corpus] + histories + out[n_corpus:]
 
     # ---------------------------------------------------------------- WAVE 4 generators
@@ -308,6 +373,25 @@ class C01(DocCheck):
         region = {'id': 'r', 'orientation': None, 'custom': None, 'coords': gen.rect(), 'te': te if level == 'region' else None,
                   'lines_first': True, 'lines': lines, 'subs': []}
         return self.bare_page([region])
+
+    def free_region_doc(self, gen: Gen, shape, conf):
+        def free():
+            return {'id': gen.uid('f'), 'orientation': None, 'custom': None, 'coords': None, 'lines_first': True, 'lines': [],
+                    'subs': [], 'te': {'conf': conf, 'plain': 'alleen platte tekst', 'unicode': ''}}
+        plain = dict(free(), id=gen.uid('u'), te={'conf': conf, 'plain': None, 'unicode': 'Anno 1650'})
+        normal = gen.conformant_region(0)
+        normal['coords'] = normal['coords'] or gen.rect()
+        if shape == 'alone':
+            regions = [normal, free()]
+        elif shape == 'nested':
+            regions = [dict(free(), te=None, subs=[free()]), normal]
+        elif shape == 'beside':
+            regions = [dict(normal, subs=[free(), dict(gen.conformant_region(0), coords=gen.rect())])]
+        elif shape == 'two':
+            regions = [free(), normal, free()]
+        else:
+            regions = [dict(free(), te=None, subs=[plain, free()]), normal]
+        return self.bare_page(regions)
 
     def wide_doc(self, gen: Gen, rng: random.Random):
         src = gen.page(depth=1, nregions=rng.choice([1, 2, 11, 14]))
@@ -441,8 +525,38 @@ class C01(DocCheck):
             return [{'p': 'C01', 'op': 'is_space', 'args': {'cps': case.input['cps']}}]
         if case.kind == 'seq':
             # the model is a pure function of the document: the answer for a document is the answer for EVERY parse of it
-            return [r for pseudo in self.seq_docs(case) for r in super().requests(pseudo)]
-        return super().requests(case)
+            return [r for pseudo in self.seq_docs(case) for r in self.requests(pseudo)]
+        return super().requests(case) + self.reading_requests(case)
+
+    def reading_requests(self, case: Case):
+        """the model's parse of the same document under its other readings (see `other_readings`; none for a document
+        without an empty Unicode next to a non-empty PlainText).  The text of a TextEquiv does not enter the hull table."""
+        if case.kind not in ('doc', 'mut'):
+            return []
+        _canonical, shuffled, _text_c, _text_s = self.trees(case)
+        alts = other_readings(shuffled)
+        if not alts:
+            return []
+        fname, hulls = case.input.get('fname', 'doc.xml'), hull_table(shuffled)
+        return [{'p': self.model_pid, 'op': 'parse_xml', 'args': {'xml': t, 'fname': fname, 'hulls': hulls}} for t in alts]
+
+    def n_base_requests(self, case: Case) -> int:
+        return 3 if case.kind == 'doc' else 2
+
+    def compare_doc(self, case, impl_out, model_out):
+        """DocCheck.compare on the document as it is; a difference in the PARSE (not in xmltodict's tree) of a document that
+        has other readings is no difference if the real parse equals the model's parse under one of them"""
+        nb = self.n_base_requests(case)
+        d = super().compare(case, impl_out, model_out[:nb])
+        if d is None or len(model_out) <= nb or not d.startswith('parse_pagexml_file vs'):
+            return d
+        real = impl_out['real']
+        real_cmp = {'ok': real['ok']['scan']} if 'ok' in real else real
+        for a in model_out[nb:]:
+            if scan_diff(real_cmp, canon(norm_answer(a))) is None:
+                return None
+        return d + f' (nor does it equal the model under any of the {len(model_out) - nb} other readings of the empty ' \
+                   f'Unicode / non-empty PlainText elements)'
 
     @staticmethod
     def _without_filename(ans):
@@ -466,16 +580,18 @@ class C01(DocCheck):
             if 'steps' not in impl_out:
                 return f'the history gave no answer: {short(impl_out)}'
             pseudos = self.seq_docs(case)
-            per = len(model_out) // max(1, len(pseudos))
+            at = 0
             for i, (pseudo, o) in enumerate(zip(pseudos, impl_out['steps'])):
-                ans = model_out[i * per:(i + 1) * per]
+                per = self.n_base_requests(pseudo) + len(other_readings(self.trees(pseudo)[1]))
+                ans = model_out[at:at + per]
+                at += per
                 if o['route'].startswith('json'):
                     ans = [ans[0]] + [self._without_filename(a) for a in ans[1:]]
-                d = super().compare(pseudo, o, ans)
+                d = self.compare_doc(pseudo, o, ans)
                 if d:
                     return f'step {i} ({o["route"]}, {o["fname"]}): {d}'
             return None
-        return super().compare(case, impl_out, model_out)
+        return self.compare_doc(case, impl_out, model_out)
 
     def nontrivial(self, case: Case) -> bool:
         if case.kind == 'seq':
@@ -600,8 +716,35 @@ class C01(DocCheck):
         exp_regions = [r for r in exp['regions']]
         self.cmp_regions(exp_regions, scan['regions'], 'page', bad, ordered=not exp['has_ro'])
 
-    def cmp_regions(self, exp, got, where, bad, ordered=True):
-        exp = [r for r in exp if has_content(r)]
+    def cmp_regions(self, exp, got, where, bad, ordered=True, alt=False):
+        """`alt`: below a region that is kept only under the PlainText reading (so that reading is the one in force)"""
+        must = [r for r in exp if has_content(r, alt)]
+        # "only a region with neither coordinates nor content is skipped": a region without coordinates whose only content
+        # is an empty Unicode next to a non-empty PlainText (at itself or at such sub-regions) has content under one
+        # reading of "the text" and none under the other (see _text_equiv): it may be kept or skipped.  When the parser
+        # delivers more regions than the Unicode reading demands, the additional ones must be such regions, in document
+        # order, and everything else is judged as before (the choice with the fewest failures is what is reported)
+        free = [] if alt else [i for i, r in enumerate(exp) if not has_content(r) and has_content(r, True)]
+        extra = len(got) - len(must)
+        if free and 0 < extra <= len(free):
+            best = None
+            for chosen in itertools.islice(itertools.combinations(free, extra), 64):
+                fs: List[Any] = []
+                kept = [(r, i in chosen) for i, r in enumerate(exp) if has_content(r) or i in chosen]
+                self.cmp_kept(kept, got, where, lambda key, what: fs.append((key, what)), ordered)
+                if best is None or len(fs) < len(best):
+                    best = fs
+                if not fs:
+                    break
+            for key, what in best:
+                bad(key, what)
+            return
+        self.cmp_kept([(r, alt) for r in must], got, where, bad, ordered)
+
+    def cmp_kept(self, exp_alt, got, where, bad, ordered=True):
+        """`exp_alt`: the regions of the file that are kept, each with the reading in force below it"""
+        alt_of = {id(r): a for r, a in exp_alt}
+        exp = [r for r, _a in exp_alt]
         if len(exp) != len(got):
             bad('region-count', f'{where}: {len(exp)} TextRegion elements with coordinates or content, {len(got)} parsed')
             return
@@ -644,7 +787,7 @@ class C01(DocCheck):
             else:
                 for el, gl in zip(e['lines'], g['lines']):
                     self.cmp_line(el, gl, w, bad)
-            self.cmp_regions(e['regions'], g['regions'], w, bad)
+            self.cmp_regions(e['regions'], g['regions'], w, bad, alt=alt_of[id(e)])
 
     def cmp_text(self, te, got, where, kind, bad, none_when_absent):
         want = '' if te is None else te['text']
